@@ -1,7 +1,7 @@
 #!/usr/bin/env python3
 """tools/restate.py <Proofs file> <spec file>  — generate restated property theorems.
 
-spec file: lines `Cxx  proof_theorem_name  new_name  | doc comment`. For every line the statement of
+spec file: lines `Cxx  proof_theorem_name  new_name [@ section-variable binders] | doc comment`. For every line the statement of
 `proof_theorem_name` is copied verbatim from the Proofs file (binders and type, up to the `:=` of the
 declaration) and a theorem `new_name` with the same binders and type is emitted inside
 `namespace PySpike.Cxx`, proved by applying the Proofs theorem to the explicit binders. The full
@@ -72,11 +72,14 @@ def binders(sig):
 groups = {}
 for l in spec:
     head, _, doc = l.partition('|')
+    head, _, pre = head.partition('@')      # `@ (x : T) …`: section variables of the Proofs file, to be made explicit
     prop, old, new = head.split()
     sig = decl_of(old)
+    if pre.strip():
+        sig = ' ' + pre.strip() + sig
     args = ' '.join(binders(sig))
     groups.setdefault(prop, []).append('/-- %s -/\ntheorem %s%s :=\n  %s %s\n' % (doc.strip(), new, sig, old, args))
 for prop in sorted(groups):
-    print('namespace PySpike.%s\nopen PySpike PySpike.C01\n' % prop)
+    print('namespace PySpike.%s\nopen PySpike PySpike.C01%s\n' % (prop, '\nopen PySpike.C09 (Op unitVec)\nopen PySpike.B7' if prop == 'C09' and 'B7.run' in ''.join(groups[prop]) else ''))
     print('\n'.join(groups[prop]))
     print('end PySpike.%s\n' % prop)
